@@ -257,7 +257,7 @@ def _shrink_json(case: Any, still_fails: Callable[[Any], bool], budget: int = 40
 
     cur = case
     improved = True
-    t_end = time.time() + 60  # shrinking only improves the report; never let it dominate a run
+    t_end = time.time() + 12  # shrinking only improves the report; never let it dominate a run
     while improved and steps[0] < budget and time.time() < t_end:
         improved = False
         for c in candidates(cur):
